@@ -68,7 +68,7 @@ def make_obj(prog, cls, extra=None):
             if name == "grp_ptr":
                 attrs[name] = Vec([0, 1, 3])
             elif name == "grp_indices":
-                attrs[name] = Vec([0, 1, 2])
+                attrs[name] = Vec([2, 0, 1])      # non-contiguous groups: {2}, {0, 1}
             elif name == "sample_weights":
                 attrs[name] = Vec(sym(f"sw{i}") for i in range(N))
             elif name == "weights":
@@ -128,7 +128,7 @@ def _func(A, module, name):
     return f
 
 
-def r_kernel_eq(A, ctx, scope, rule="R-KERNEL-EQ"):
+def r_kernel_eq(A, ctx, scope, rule="R-KERNEL-EQ", select=None):
     ctx.rule(rule, "dense and CSC copies of every solver kernel, lifted on one small design with "
              "structural zeros and a permuted working set, leave equal terms in the coefficient "
              "array, the model fit and the returned arrays (same datafit and penalty objects, "
@@ -140,6 +140,8 @@ def r_kernel_eq(A, ctx, scope, rule="R-KERNEL-EQ"):
     def run(tag, fn_d, fn_s, mk, where):
         """mk(L, sparse) -> (args, observed) ; observed() returns the arrays to compare"""
         nonlocal n
+        if select is not None and not select(fn_d):
+            return
         key = f"{fn_d.fq}::{tag}"
         import signal
 
@@ -329,10 +331,11 @@ def r_kernel_eq(A, ctx, scope, rule="R-KERNEL-EQ"):
             if not fi:
                 run(f"{dcls.name}", pg_d, pg_s, mk_pg, loc(pg_s, pg_s.node))
             if fi and dcls.name in HEAVY_DIRECTION:
-                ctx.note(f"{rule}: _descent_direction with {dcls.name}, fit_intercept=True not decided: "
-                         "the Newton intercept update divides by a sum of curvatures and the terms "
-                         "exceed the size budget (decided without intercept, and with intercept "
-                         "for the other datafits)")
+                if select is None or select(dd_d):
+                    ctx.note(f"{rule}: _descent_direction with {dcls.name}, fit_intercept=True not decided: "
+                             "the Newton intercept update divides by a sum of curvatures and the terms "
+                             "exceed the size budget (decided without intercept, and with intercept "
+                             "for the other datafits)")
             else:
                 run(f"{dcls.name} x L1, fit_intercept={fi}", dd_d, dd_s, mk_dd, loc(dd_s, dd_s.node))
             run(f"{dcls.name} x L1, fit_intercept={fi}", ls_d, ls_s, mk_ls, loc(ls_s, ls_s.node))
